@@ -278,6 +278,20 @@ class FnTerms:
             self._memo[key] = (expr, t, env)
         return t
 
+    def _is_config_alias(self, name, nid, env):
+        """`name` is a local bound (only) to self.config"""
+        if name in env or name in ("self", "cls"):
+            return False
+        ids = self.reaching(name, nid)
+        if not ids:
+            return False
+        for i in ids:
+            d_ = self.defs[i]
+            v = getattr(d_, "value", None)
+            if d_.kind != "assign" or not isinstance(v, ast.Attribute) or dotted(v) != "self.config":
+                return False
+        return True
+
     def _args(self, call, nid, env, depth):
         return tuple(self.term(a, nid, env, depth + 1) for a in call.args), \
             tuple((k.arg, self.term(k.value, nid, env, depth + 1)) for k in call.keywords)
@@ -300,6 +314,8 @@ class FnTerms:
                 return ("cfg", e.attr)
             if d and d.startswith("config.") and d.count(".") == 1 and "config" in self.fi.params:
                 return ("cfg", e.attr)
+            if d and d.count(".") == 1 and self._is_config_alias(d.split(".")[0], nid, env):
+                return ("cfg", e.attr)      # cfg = self.config; cfg.param_x
             if d:
                 # module constant / class attribute
                 head = d.split(".")[0]
@@ -500,6 +516,8 @@ class FnTerms:
             if parts[:2] == ["self", "config"] and len(parts) in (3, 4):
                 return ("prim", parts[2], parts[3] if len(parts) == 4 else None, args, kwargs)
             if parts[0] == "config" and "config" in self.fi.params and len(parts) in (2, 3) and not self.reaching("config", nid)[1:]:
+                return ("prim", parts[1], parts[2] if len(parts) == 3 else None, args, kwargs)
+            if len(parts) in (2, 3) and self._is_config_alias(parts[0], nid, env):
                 return ("prim", parts[1], parts[2] if len(parts) == 3 else None, args, kwargs)
             head = parts[0]
             local = head in env or bool(self.reaching(head, nid))
